@@ -295,6 +295,12 @@ class Program:
 
                         a = typing.Annotated[a, "meta"]
                     if sp and sp.get("wrap") == "string":
+                        if sp.get("annotated"):
+                            # the string names an Annotated type (every Annotated annotation under
+                            # `from __future__ import annotations`)
+                            import typing
+
+                            a = typing.Annotated[a, "meta"]
                         glb["TYPE_ALIAS"] = a
                         glb["__name__"] = "verifprog_reexecuted"
                     self.anns[key] = a
